@@ -201,13 +201,13 @@ Definition C03_check (i : pin) (o : c03out) : bool :=
                (code =? exit_code nread (N.to_nat (c_errors c)) matched)%Z &&
                match csv_read out with Some rows => counter_rows_ok c rows | None => false end &&
                match k_snaps o with snap :: _ => histo_snap_ok c (N.to_nat (k_n o)) snap | [] => true end
-      | 1%N => let t := t_run 0%N keys in
+      | 1%N => let t := t_run [0%N] keys in
                (code =? exit_code nread (N.to_nat (t_errors t)) matched)%Z &&
                match csv_read out with Some rows => rows_eq rows (table_rows t) | None => false end
       | 2%N => let s := s_run keys in
                (code =? exit_code nread (N.to_nat (Agg.s_errors s)) matched)%Z &&
                match csv_read out with Some rows => rows_eq rows (subkey_rows s) | None => false end
-      | 5%N => let t := t_run 0%N keys in
+      | 5%N => let t := t_run [0%N] keys in
                (code =? exit_code nread (N.to_nat (t_errors t)) matched)%Z &&
                match csv_read out with Some rows => spark_trim_ok (N.to_nat (k_n o)) t rows | None => false end
       | 6%N => (code =? exit_code nread 0 matched)%Z &&
